@@ -1,7 +1,7 @@
 """C16 - runtime type checks (structural clauses)."""
 import re
 
-from kern import CallGraph, ValueBearing, callers, field_reads_of, natives, short_fn, top_fn
+from kern import CallGraph, ValueBearing, callers, field_reads_of, field_uses_of, natives, short_fn, top_fn
 
 DESCRIPTION = ("C16 clauses decided: R1 every TypeMatcher::matches impl consults every component of its matcher struct "
                "(e.g. dict[K, V] tests both K and V); R2 isinstance, the bytecode type-check instructions, parameter "
@@ -29,7 +29,7 @@ def r1(ctx, F):
             ctx.bad("C16.R1", "body:" + i["selfty"], "anchor-missing: matches body of " + i["path"])
             continue
         n += 1
-        reads = field_reads_of(F, c[0], a.path, "_1", depth=2)
+        reads = field_uses_of(F, c[0], a.path, "_1", depth=2)
         for fd in a.fields:
             if fd["ty"].startswith("std::marker::PhantomData"):
                 continue
